@@ -2,6 +2,8 @@ package main
 
 import (
 	"encoding/json"
+	"strings"
+	"sync/atomic"
 	"time"
 
 	"verif.local/h/core"
@@ -42,13 +44,73 @@ func seqReplay(mk func(tier string) *seqProp) func(ctx *core.Ctx, c json.RawMess
 }
 
 func registerSeq(id string, mk func(tier string) *seqProp, quick, thorough time.Duration) {
+	registerSeqMulti(id, func(tier string) []*seqProp { return []*seqProp{mk(tier)} }, quick, thorough)
+}
+
+// registerSeqPlus: a seqx check with an extra (mergex) phase.
+func registerSeqPlus(id string, extra func(ctx *core.Ctx, tier string), mk func(tier string) *seqProp, quick, thorough time.Duration) {
+	registerSeq(id, mk, quick, thorough)
+	ck := checks[id]
+	ck.Engine = "seqx+mergex"
+	run, replay := ck.Run, ck.Replay
+	ck.Run = func(ctx *core.Ctx, tier string) {
+		run(ctx, tier)
+		rule := ctx.Rep.Rule
+		tr, va := ctx.Rep.Trans, ctx.Rep.Validated
+		extra(ctx, tier)
+		ctx.Rep.Rule = rule + " || MergePatch part: " + mergeRules[id]
+		ctx.Rep.Validated = atomic.LoadInt64(&nExec)
+		ctx.Rep.Evals = ctx.Rep.Validated
+		ctx.Rep.Trans = tr + (ctx.Rep.Validated - va)
+	}
+	ck.Replay = func(ctx *core.Ctx, raw json.RawMessage) {
+		var probe struct {
+			Func string `json:"func"`
+		}
+		json.Unmarshal(raw, &probe)
+		if probe.Func != "" {
+			mergeReplay(ctx, id, raw)
+			return
+		}
+		replay(ctx, raw)
+	}
+}
+
+var mergeRules = map[string]string{
+	"C05": "every edge (object documents of V2 + documents with 1.0 / 1e400 / -0 / 23-digit literals) x (V2 + literal patches): result equals RFC 7396 with numbers by literal, surviving members lead in document order ahead of new ones, recursively",
+	"C15": "every successful output of MergePatch / MergeMergePatches / CreateMergePatch over documents and patches with < > & U+2028/9 quotes backslashes control, non-BMP and lone-surrogate escapes in strings and names: well-formed (independent reader), UTF-8, equal to the reference value",
+}
+
+// registerSeqMulti: a check made of several exploration phases (e.g. v5 per-call
+// options, v5 package defaults, legacy package globals).
+func registerSeqMulti(id string, mk func(tier string) []*seqProp, quick, thorough time.Duration) {
 	checks[id] = &check{Engine: "seqx",
 		Run: func(ctx *core.Ctx, tier string) {
-			p := mk(tier)
-			ctx.Rep.Rule = p.Rule
-			runSeq(ctx, p)
+			rules := []string{}
+			for _, p := range mk(tier) {
+				rules = append(rules, p.Rule)
+				runSeq(ctx, p)
+			}
+			ctx.Rep.Rule = strings.Join(rules, " || ")
 		},
-		Replay: seqReplay(mk),
+		Replay: func(ctx *core.Ctx, raw json.RawMessage) {
+			var c SeqCase
+			if err := json.Unmarshal(raw, &c); err != nil {
+				panic(err)
+			}
+			// pick the phase the case came from
+			for _, p := range mk("quick") {
+				lib := "v5"
+				if p.Legacy {
+					lib = "v4"
+				}
+				if lib == c.Lib && p.UseDefaults == c.UseDefaults {
+					seqReplay(func(string) *seqProp { return p })(ctx, raw)
+					return
+				}
+			}
+			panic("no phase matches the recorded case")
+		},
 		Budget: map[string]time.Duration{"quick": quick, "thorough": thorough}}
 }
 
@@ -72,4 +134,288 @@ func init() {
 var thirdLevel = &AlphaCfg{
 	Values:     []*rj.Value{patchValues[0], patchValues[2], patchValues[6]},
 	ReplValues: []*rj.Value{patchValues[2]},
+}
+
+var (
+	v3  = []*rj.Value{patchValues[0], patchValues[2], patchValues[5]} // 1, null, {"k":null}
+	v2  = []*rj.Value{patchValues[0], patchValues[2]}
+	v1n = []*rj.Value{patchValues[2]}
+)
+
+func kinds(ks ...string) map[string]bool {
+	m := map[string]bool{}
+	for _, k := range ks {
+		m[k] = true
+	}
+	return m
+}
+
+func init() {
+	// C05 — order and literals (Apply part; the MergePatch part is added by mergex)
+	registerSeqPlus("C05", func(ctx *core.Ctx, tier string) {
+		v2 := famV2()
+		lits := parseAll([]string{`{"n":1.0,"e":1e400,"z":-0,"big":12345678901234567890123}`, `{"b":2,"a":1,"c":{"z":1.50,"y":2}}`, `{"c":{"y":null,"x":1.0},"d":0.10,"a":1E2}`, `{"z":{"n":-0.0}}`})
+		docs := append(onlyObjs(v2), lits...)
+		runMergeEdges(ctx, "C05", false, docs, append(append([]*rj.Value(nil), v2...), lits...), mergeCfg{ordered: true})
+	}, func(tier string) *seqProp {
+		p := &seqProp{ID: "C05", Docs: Dq, Opts: []r69.Options{defaultOpt}, Depth: 2,
+			Judge: func(r *seqRun) { judgeResult(r, true) },
+			Rule: "as C01 (SupportNegativeIndices on), judged with ORDERED equality: member order must equal the reference's " +
+				"(survivors keep relative order, created members appended in creation order, replace/add-on-existing keep position) and every number literal must be byte-identical; includes the empty patch on every document"}
+		if tier == "thorough" {
+			p.Depth = 3
+			p.Alpha = []*AlphaCfg{{}, {}, thirdLevel}
+		}
+		return p
+	}, 100*time.Second, 25*time.Minute)
+
+	// C08 — failures return nothing and say why
+	registerSeq("C08", func(tier string) *seqProp {
+		var opts []r69.Options
+		for _, neg := range []bool{true, false} {
+			for _, am := range []bool{false, true} {
+				for _, lim := range []int64{0, 6} {
+					opts = append(opts, r69.Options{Neg: neg, AllowMissing: am, Limit: lim, EscapeHTML: true})
+				}
+			}
+		}
+		opts = append(opts, r69.Options{Neg: true, Ensure: true, EscapeHTML: true}, r69.Options{Neg: false, Ensure: true, AllowMissing: true, Limit: 6})
+		docs := []string{Dq[0], Dq[1], Dq[2], Dq[3], Dq[6], Dq[7]}
+		a := &AlphaCfg{Values: v3, ReplValues: v2}
+		p := &seqProp{ID: "C08", Docs: docs, Opts: opts, Depth: 2, Alpha: []*AlphaCfg{a}, Judge: judgeC08,
+			Rule: "all sequences <= depth over Sigma(D) (3 value shapes) under 10 option combinations that change failure causes " +
+				"(negatives, AllowMissingPathOnRemove, copy limit, EnsurePathExistsOnAdd); every failing sequence is judged for (nil document, non-nil error, " +
+				"errors.Is/As class vs. the reference's cause) and re-run with each of 6 further operations appended (outcome must be identical)"}
+		if tier == "thorough" {
+			p.Docs = Dq
+			p.Alpha = []*AlphaCfg{{}, a}
+		}
+		return p
+	}, 100*time.Second, 25*time.Minute)
+
+	// C13 — AllowMissingPathOnRemove
+	registerSeq("C13", func(tier string) *seqProp {
+		opts := optsNeg(r69.Options{AllowMissing: true, EscapeHTML: true})
+		a := &AlphaCfg{Values: v3, ReplValues: v1n}
+		p := &seqProp{ID: "C13", Docs: Dq, Opts: opts, Depth: 2, Alpha: []*AlphaCfg{a}, Judge: judgeC13,
+			Rule: "option on x negatives on/off x all sequences <= depth (removes of existing / absent-member / out-of-range / absent-ancestor targets mixed with all other operations); " +
+				"each judged against the reference AND differentially on the real code: Apply(on, P) must equal Apply(off, P minus the removes the reference marks skipped) in bytes or in error"}
+		if tier == "thorough" {
+			p.Depth = 3
+			p.Alpha = []*AlphaCfg{a, a, {Values: v1n, ReplValues: v1n, Kinds: kinds("remove", "move", "add", "test")}}
+		}
+		return p
+	}, 100*time.Second, 25*time.Minute)
+
+	// C14 — EnsurePathExistsOnAdd
+	registerSeq("C14", func(tier string) *seqProp {
+		opts := []r69.Options{{Neg: true, Ensure: true, EscapeHTML: true}, {Neg: false, Ensure: true, EscapeHTML: true}}
+		docs := []string{`{}`, `[]`, `{"a":{"b":{}},"m~n":[]}`, `{"a":[{"b":[]}],"a/b":{"a":1}}`, `[[],{"a":[1]}]`, `{"b":[1,[2]],"a":{"a/b":{}}}`}
+		el := 3
+		if tier == "thorough" {
+			el = 4
+		}
+		first := &AlphaCfg{EnsureLen: el, Values: []*rj.Value{patchValues[0], patchValues[5]}}
+		p := &seqProp{ID: "C14", Docs: docs, Opts: opts, Depth: 2, Alpha: []*AlphaCfg{first, {Values: v2, ReplValues: v1n}}, Judge: judgeC14,
+			Rule: "option on: every add path of 1..L tokens over {a, b, 'a/b', 'm~n', 0, 1, 2} ('-' as last token only) x 2 values on documents in which every prefix length is already present, " +
+				"followed by every further operation of Sigma(D); judged against reference ensure+add with ORDERED equality (frame: nothing off the path changes), " +
+				"lookup of the value at the path in the output, and agreement with plain add wherever plain add succeeds"}
+		if tier == "thorough" {
+			p.Alpha = []*AlphaCfg{first, {}}
+		}
+		return p
+	}, 100*time.Second, 25*time.Minute)
+
+	// C15 — well-formed outputs, escaping, indentation (Apply part)
+	registerSeqPlus("C15", func(ctx *core.Ctx, tier string) {
+		runMergeOutputs(ctx, tier)
+	}, func(tier string) *seqProp {
+		opts := []r69.Options{{Neg: true, EscapeHTML: true}, {Neg: true, EscapeHTML: false}}
+		docs := []string{
+			`{"h":"<>&","<k>":{"x":"a<b"},"a":[1,"&"]}`,
+			"{\"u\":\"\u2028x\u2029\",\"q\":\"\\\"\\\\\\n\",\"s\":{\"\U0001F600\":\"\\ud83d\\ude00\",\"l\":\"\\ud800\"}}",
+			`{"a":{"b":"<"},"c":["<",{"d":"&"}]}`,
+			`{}`, `[]`, `[{"<":1},"\u001f>"]`,
+		}
+		vals := parseAll([]string{`"<"`, `{"&":">"}`, `null`, `[1]`})
+		a := &AlphaCfg{Values: vals, ReplValues: vals[:2]}
+		p := &seqProp{ID: "C15", Docs: docs, Opts: opts, Depth: 2, Alpha: []*AlphaCfg{a}, Judge: judgeC15,
+			Rule: "EscapeHTML on/off x documents and patch values containing < > & U+2028/9 quotes backslashes control, non-BMP and lone-surrogate escapes x all sequences <= depth; " +
+				"every successful output must parse (independent reader), be UTF-8, equal the reference value, obey the escaping clause, equal the independently re-indented Apply output for 3 indent strings, " +
+				"and be byte-identical to the output of the same patch with its (passing) test operations deleted"}
+		if tier == "thorough" {
+			p.Depth = 3
+			p.Alpha = []*AlphaCfg{a, a, {Values: vals[:1], ReplValues: vals[:1], Kinds: kinds("test", "add", "move", "copy")}}
+		}
+		return p
+	}, 100*time.Second, 25*time.Minute)
+
+	// C18 — legacy Apply
+	registerSeq("C18", func(tier string) *seqProp {
+		docs := []string{Dq[0], Dq[1], Dq[2], Dq[3], Dq[6], Dq[7], Dq[9], Dq[10], Dq[11],
+			`{"n":1.0,"e":1e400,"z":-0,"big":12345678901234567890123,"s":"plain"}`}
+		a := &AlphaCfg{NoRootAdd: true}
+		p := &seqProp{ID: "C18", Legacy: true, Docs: docs, Opts: optsNeg(r69.Options{EscapeHTML: true}), Depth: 2, Alpha: []*AlphaCfg{a}, Judge: judgeC18,
+			Rule: "legacy package (built as module github.com/evanphx/json-patch from the working tree through an overlay go.mod): the C01 space without add \"\" and copy from \"\"; " +
+				"sequences the reference evaluates successfully must succeed with a structurally equal document (member order ignored, number literals kept); " +
+				"sequences whose first inapplicable operation is a failed test, a remove/move of an absent target or an out-of-range index must return an error and no document; other failures are outside the stated domain"}
+		if tier == "thorough" {
+			p.Depth = 3
+			p.Alpha = []*AlphaCfg{a, a, {Values: thirdLevel.Values, ReplValues: thirdLevel.ReplValues, NoRootAdd: true}}
+		}
+		return p
+	}, 100*time.Second, 25*time.Minute)
+}
+
+func init() {
+	// C12 — accumulated copy-size limit: v5 per-call option, v5 package default, legacy package global
+	registerSeqMulti("C12", func(tier string) []*seqProp {
+		docs := []string{
+			`{"h":"<&>","w":[ 1 , 2 ],"n":null,"o":{"<":"x"}}`,
+			`[ "a<b", null, {"k": [1, 2]} ]`,
+			`{"s":"0123456789"}`,
+		}
+		vals := parseAll([]string{`"<"`, `null`})
+		a := &AlphaCfg{Values: vals, ReplValues: vals[:1], Kinds: kinds("copy", "add", "remove", "replace")}
+		tail := &AlphaCfg{Kinds: kinds("copy")}
+		perCall := &seqProp{ID: "C12", Docs: docs, Opts: []r69.Options{{Neg: true, EscapeHTML: true}, {Neg: true, EscapeHTML: false}}, Depth: 2,
+			Alpha: []*AlphaCfg{a, tail}, Judge: judgeC12,
+			Rule: "v5 per-call option: all sequences <= depth over {copy, add, remove, replace} (copy-only tail) on documents with HTML characters, whitespace-spelled arrays and nulls, EscapeHTML on/off; " +
+				"for each sequence the reference computes the running copied-bytes total T_k after every copy (canonical compact spelling under the current escaping; a copied null counts 0..4) and the sequence is re-run under every limit in {1, T_k-1, T_k, T_k+1, 2^40}: " +
+				"*AccumulatedCopySizeError exactly at the first copy with total > limit, never otherwise, nil document, limit 0 never trips"}
+		var limOpts []r69.Options
+		maxL := int64(24)
+		if tier == "thorough" {
+			maxL = 64
+		}
+		for l := int64(0); l <= maxL; l++ {
+			limOpts = append(limOpts, r69.Options{Neg: true, EscapeHTML: true, Limit: l})
+		}
+		small := []string{`{"s":"0123456789","n":null}`, `[ "a<b", [1, 2] ]`}
+		sa := &AlphaCfg{Values: vals[:1], ReplValues: vals[:1], Kinds: kinds("copy", "add", "remove")}
+		defaults := &seqProp{ID: "C12", UseDefaults: true, Docs: small, Opts: limOpts, Depth: 2, Alpha: []*AlphaCfg{sa, tail}, Judge: judgeC12Fixed,
+			Rule: "v5 package default (AccumulatedCopySizeLimit variable, read by NewApplyOptions via Apply): every limit 0..N x all sequences <= depth on 2 documents, same oracle"}
+		legacy := &seqProp{ID: "C12", Legacy: true, Docs: small, Opts: limOpts, Depth: 2,
+			Alpha: []*AlphaCfg{{Values: vals[:1], ReplValues: vals[:1], Kinds: kinds("copy", "add", "remove"), NoRootAdd: true}, {Kinds: kinds("copy"), NoRootAdd: true}}, Judge: judgeC12Fixed,
+			Rule: "legacy package global AccumulatedCopySizeLimit: every limit 0..N x all sequences <= depth on 2 documents, same oracle (sizes with HTML escaping, which the legacy encoder always applies)"}
+		if tier == "thorough" {
+			perCall.Depth, defaults.Depth, legacy.Depth = 3, 3, 3
+			perCall.Alpha = []*AlphaCfg{a, tail, tail}
+		}
+		return []*seqProp{perCall, defaults, legacy}
+	}, 100*time.Second, 25*time.Minute)
+}
+
+func init() {
+	registerMerge("C02", func(ctx *core.Ctx, tier string) {
+		v1, v2 := famV1(), famV2()
+		ctx.Rep.Rule = "all edges D x P: MergePatch(D,P) vs RFC 7396 pseudo-code on refjson trees. quick: V1xV2, V2xV1, V2-objects x V3-objects (depth-3 recursion through members that change type); patch and document also fed in 3 spelling variants on V1xV1. thorough: V3xV3. " +
+			"states = distinct documents (inputs and results); non-trivial = distinct result documents"
+		if tier == "quick" {
+			runMergeEdges(ctx, "C02", false, v1, v2, mergeCfg{})
+			runMergeEdges(ctx, "C02", false, v2, v1, mergeCfg{})
+			runMergeEdges(ctx, "C02", false, onlyObjs(v2), onlyObjs(famV3()), mergeCfg{})
+			runMergeEdges(ctx, "C02", false, v1, v1, mergeCfg{variants: true})
+		} else {
+			v3 := famV3()
+			runMergeEdges(ctx, "C02", false, v3, v3, mergeCfg{})
+			runMergeEdges(ctx, "C02", false, v2, v2, mergeCfg{variants: true})
+		}
+	}, false)
+	registerMerge("C03", func(ctx *core.Ctx, tier string) {
+		v2 := famV2()
+		objs := onlyObjs(v2)
+		extra := parseAll([]string{`{"n":1.0}`, `{"n":1}`, `{"n":1e400}`, `{"n":12345678901234567890123}`, `{"n":12345678901234567890124}`, `{"n":-0}`, `{"n":0}`, `{"a":{"n":1.0}}`, `{"a":{"n":1.00}}`})
+		objs = append(objs, extra...)
+		arrs := parseAll([]string{`[]`, `[{}]`, `[{"a":1}]`, `[{"a":2}]`, `[{"a":1},{"b":null}]`, `[{"a":1},{"b":2}]`, `[{},{}]`, `[{"a":{"b":1}},{"a":[1]}]`, `[{"a":{"b":2}},{"a":[2]}]`})
+		ctx.Rep.Rule = "all ordered pairs (A,B): objects of V2 (+ numbers beyond float64 precision) -> success, P={} iff A==B, minimality (every mentioned path differs, removed => null, values are B's literals), RFC round trip and library round trip when B has no null member; " +
+			"pairs of arrays of objects; all pairs of other roots of V1 -> error (null roots: DontCare). thorough: V3 objects"
+		if tier == "thorough" {
+			objs = append(onlyObjs(famV3()), extra...)
+		}
+		runCreatePairs(ctx, "C03", false, objs, objs)
+		runCreatePairs(ctx, "C03", false, arrs, arrs)
+		v1 := famV1()
+		runCreatePairs(ctx, "C03", false, v1, v1)
+	}, false)
+	registerMerge("C06", func(ctx *core.Ctx, tier string) {
+		ctx.Rep.Rule = "Equal(a,b) vs reference structural equality (numbers by literal; numerically-equal-but-differently-spelled pairs are DontCare) for all ordered pairs of V2 (quick) / V3 (thorough), each value also in reordered, whitespace-padded and \\u-escaped spellings; " +
+			"agreement with an equivalence relation on the whole set gives reflexivity, symmetry and transitivity there; malformed inputs are added by bytex (see C04/C16 clauses in this check)"
+		vs := famV2()
+		if tier == "thorough" {
+			vs = famV3()
+		}
+		runEqualPairs(ctx, "C06", false, vs, true)
+		runEqualMalformed(ctx, "C06", tier)
+	}, false)
+	registerMerge("C07", func(ctx *core.Ctx, tier string) {
+		ctx.Rep.Rule = "all triples (D,P1,P2): P1,P2 object patches (V2 objects; thorough: V3 objects) satisfying the compatibility condition (computed by the reference), plus non-object P2; D over V1 plus nested documents; " +
+			"RFC-apply(D, MergeMergePatches(P1,P2)) == RFC-apply(RFC-apply(D,P1),P2); the same through the library's MergePatch on a sub-family; non-object P2 => result == P2"
+		docs := append(famV1(), parseAll(membs2)...)
+		ps := onlyObjs(famV2())
+		p2s := append(append([]*rj.Value(nil), ps...), parseAll([]string{`[1]`, `"s"`, `1`, `null`, `[{"a":null}]`, `true`})...)
+		if tier == "thorough" {
+			ps = onlyObjs(famV3())
+			p2s = append(append([]*rj.Value(nil), ps...), parseAll([]string{`[1]`, `"s"`, `1`, `null`, `[{"a":null}]`, `true`})...)
+		}
+		runCompose(ctx, "C07", false, dedupe(docs), ps, p2s)
+	}, false)
+}
+
+func init() {
+	// C16 — exactly RFC 8259: scanner product + bytex(a) + entry points + nesting limit
+	registerMerge("C16", func(ctx *core.Ctx, tier string) {
+		ctx.Rep.Rule = "(1) scanx: BFS over the synchronous product of the real scanner and a reference pushdown recogniser, all 256 bytes from every reachable state, stacks to depth 4: end-of-input acceptance must agree in every state (language equality for every length); " +
+			"(2) bytex(a): every string over 33 byte-class representatives up to length L whose proper prefixes are viable (plus each with one killing byte): Valid/Compact/Indent/Unmarshal/UnmarshalWithKeys accept iff RFC 8259 does; every accepted string, also with leading/trailing whitespace, goes to every public entry point (must be accepted when of the right shape; value-preserving); " +
+			"(3) bytex(b): every string over 16 symbols up to length 4 (thorough 5) in every []byte parameter of the v5 entry points: ill-formed => error (Equal: false); (4) nesting 9999/10000/10001. states = scanner product states + distinct well-formed strings"
+		ctx.Phase("scanx", func() { runScanx(ctx, 4) })
+		n, ne, nb := 5, 4, 4
+		if tier == "thorough" {
+			n, ne, nb = 7, 5, 5
+		}
+		ctx.Phase("bytex_a", func() { runBytexA(ctx, "C16", n, ne) })
+		ctx.Phase("bytex_b", func() { runBytexB(ctx, "C16", nb, byteFlags{reject: true, accept: true, applyOK: true}) })
+		ctx.Phase("deep", func() { runDeep(ctx, "C16", tier, true, true) })
+	}, false)
+}
+
+func noFloatSpelling(vs []*rj.Value) []*rj.Value {
+	var out []*rj.Value
+	for _, v := range vs {
+		if !strings.Contains(txt(v), "1.0") {
+			out = append(out, v)
+		}
+	}
+	return out
+}
+
+func containersOnly(vs []*rj.Value) []*rj.Value {
+	var out []*rj.Value
+	for _, v := range vs {
+		if v.K == rj.Obj || v.K == rj.Arr {
+			out = append(out, v)
+		}
+	}
+	return out
+}
+
+func init() {
+	// C19 — legacy merge functions, within the stated domains
+	registerMerge("C19", func(ctx *core.Ctx, tier string) {
+		ctx.Rep.Rule = "legacy package (overlay go.mod): MergePatch edges V2 x (object and array patches of V2, thorough V3); CreateMergePatch on all ordered pairs of V2 objects whose numbers are spelled as Go prints a float64 (minimality + round trip when B has no null member); " +
+			"MergeMergePatches composition law on V2-object patches satisfying the compatibility condition; Equal on all ordered pairs of object/array-rooted values of V2 in reordered and whitespace-padded spellings (no escapes)"
+		v1, v2 := famV1(), famV2()
+		pats := containersOnly(v2)
+		if tier == "thorough" {
+			pats = containersOnly(famV3())
+		}
+		ctx.Phase("merge", func() { runMergeEdges(ctx, "C19", true, v2, pats, mergeCfg{}) })
+		objs := noFloatSpelling(onlyObjs(v2))
+		ctx.Phase("create", func() { runCreatePairs(ctx, "C19", true, objs, objs) })
+		docs := append(append([]*rj.Value(nil), v1...), parseAll(membs2)...)
+		ps := onlyObjs(v2)
+		p2s := append(append([]*rj.Value(nil), ps...), parseAll([]string{`[1]`, `[{"a":null}]`, `[]`})...)
+		ctx.Phase("compose", func() { runCompose(ctx, "C19", true, dedupe(docs), ps, p2s) })
+		ctx.Phase("equal", func() { runEqualPairs(ctx, "C19", true, containersOnly(v2), true) })
+	}, true)
 }
